@@ -114,6 +114,10 @@ func c05Calls() map[string]c05Call {
 		_, err := w.C("d", "e").InsertOne(w.Ctx, bD("_id", "x"))
 		return err
 	})
+	add("insdotted", func(w *world.World) error {
+		_, err := w.C("d", "fs.files").InsertOne(w.Ctx, bD("_id", "f1", "filename", "x"))
+		return err
+	})
 	add("dropc", func(w *world.World) error { return w.C("d", "c").Drop(w.Ctx) })
 	// a session transaction committed through the manual API (no deferred Abort on the caller's side)
 	add("txn", func(w *world.World) error {
@@ -348,7 +352,7 @@ func init() {
 		k.st.exhaustive = true
 		histories := [][]string{
 			{"ins1", "ins2big", "del2", "upd1"},
-			{"ins1", "idx", "ins3other", "dropc"},
+			{"ins1", "idx", "insdotted", "dropc"},
 		}
 		histories = append(histories, []string{"ins1", "txn", "upd1", "wtxn"})
 		if !c.Quick() {
